@@ -41,6 +41,8 @@ func normShape(s string) string {
 			sb.WriteString("clients/⟨s⟩/")
 		case "const":
 			sb.WriteString("⟨" + inner + "⟩")
+		case "v":
+			sb.WriteString("⟨s⟩") // a value spliced in as is and a %s hole are the same kind of component
 		default:
 			sb.WriteString("⟨" + verb + "⟩")
 		}
@@ -65,7 +67,7 @@ const (
 
 var families = map[string]famRow{
 	"chainName":               {exporter: clKeeper + "Keeper.GetChainName", importer: clKeeper + "Keeper.SetChainName"},
-	"relayers⟨v⟩":             {exporter: clKeeper + "Keeper.GetAllRelayers", importer: clKeeper + "Keeper.RegisterRelayers"},
+	"relayers⟨s⟩":             {exporter: clKeeper + "Keeper.GetAllRelayers", importer: clKeeper + "Keeper.RegisterRelayers"},
 	"clients/⟨s⟩/clientState": {exporter: clKeeper + "Keeper.IterateClients", importer: clKeeper + "Keeper.SetClientState"},
 	"clients/⟨s⟩/consensusStates/⟨be8⟩⟨be8⟩":               {exporter: clKeeper + "Keeper.IterateConsensusStates", importer: clKeeper + "Keeper.SetClientConsensusState"},
 	"clients/⟨s⟩/consensusStates/⟨be8⟩⟨be8⟩/processedTime": {exporter: tmT + "IterateProcessedTime", importer: clKeeper + "Keeper.SetAllClientMetadata"},
@@ -78,9 +80,9 @@ var families = map[string]famRow{
 	"commitments/⟨s⟩/⟨s⟩/sequences/⟨d⟩":                    {exporter: pkKeeper + "Keeper.IteratePacketCommitment", importer: pkKeeper + "Keeper.SetPacketCommitment"},
 	"receipts/⟨s⟩/⟨s⟩/sequences/⟨d⟩":                       {exporter: pkKeeper + "Keeper.IteratePacketReceipt", importer: pkKeeper + "Keeper.SetPacketReceipt"},
 	"acks/⟨s⟩/⟨s⟩/sequences/⟨d⟩":                           {exporter: pkKeeper + "Keeper.IteratePacketAcknowledgement", importer: pkKeeper + "Keeper.SetPacketAcknowledgement"},
-	"⟨const:1⟩⟨v⟩":                                         {exporter: "x/aggregate/keeper.Keeper.GetAllTokenPairs", importer: "x/aggregate/keeper.Keeper.SetTokenPair"},
-	"⟨const:2⟩⟨v⟩":                                         {derived: true, importer: "x/aggregate/keeper.Keeper.SetERC20Map"},
-	"⟨const:3⟩⟨v⟩":                                         {derived: true, importer: "x/aggregate/keeper.Keeper.SetDenomMap"},
+	"⟨const:1⟩⟨s⟩":                                         {exporter: "x/aggregate/keeper.Keeper.GetAllTokenPairs", importer: "x/aggregate/keeper.Keeper.SetTokenPair"},
+	"⟨const:2⟩⟨s⟩":                                         {derived: true, importer: "x/aggregate/keeper.Keeper.SetERC20Map"},
+	"⟨const:3⟩⟨s⟩":                                         {derived: true, importer: "x/aggregate/keeper.Keeper.SetDenomMap"},
 }
 
 func c13(c *Check) {
@@ -107,7 +109,7 @@ func c13(c *Check) {
 			continue // dead writer (no in-scope caller): e.g. SetPacketRelayer
 		}
 		f := normShape(w.Full(c.P))
-		if f == "clients/⟨s⟩/⟨v⟩" && strings.HasSuffix(funcName(w.Fn), "SetAllClientMetadata") {
+		if f == "clients/⟨s⟩/⟨s⟩" && strings.HasSuffix(funcName(w.Fn), "SetAllClientMetadata") {
 			continue // the generic metadata importer itself
 		}
 		fams[f] = append(fams[f], w)
@@ -142,7 +144,7 @@ func c13(c *Check) {
 					continue
 				}
 				n := normShape(rd.Full)
-				if strings.HasSuffix(n, "⟨v⟩") && strings.HasPrefix(f, strings.TrimSuffix(n, "⟨v⟩")) && row.via != "" {
+				if strings.HasSuffix(n, "⟨s⟩") && strings.HasPrefix(f, strings.TrimSuffix(n, "⟨s⟩")) && row.via != "" {
 					param = true
 					okRead = true
 				} else if strings.HasPrefix(f, n) {
